@@ -391,7 +391,30 @@ fn gen_inputs(rng: &mut Rng) -> (String, String, String, String, &'static str) {
     let mut frag = BASE_FRAG.to_string();
     let mut config = BASE_CONFIG.to_string();
     let kind;
-    match rng.below(17) {
+    match rng.below(18) {
+        16 => {
+            // every line indented with ASCII spaces, one line beginning with multi-byte white space instead (legal inside
+            // a block string, an illegal character elsewhere): the diagnostics renderer strips the common indentation of
+            // the lines around the reported position
+            kind = "multibyte-indentation";
+            let pad = " ".repeat(*rng.pick(&[2usize, 3, 4, 6]));
+            let wide = *rng.pick(&["\u{3000}", "\u{3000}\u{3000}", "\u{a0}", "\u{2003}\u{2003}", "\u{feff}"]);
+            let src = if rng.coin() { BASE_OP } else { BASE_SCHEMA };
+            let mut lines: Vec<String> = src.lines().map(|l| format!("{pad}{l}")).collect();
+            let k = rng.below(lines.len());
+            match rng.below(3) {
+                0 => lines[k] = format!("{wide}{}", lines[k].trim_start()),
+                1 => lines.insert(k, format!("{pad}\"\"\"\n{wide}doc line\n{pad}\"\"\"")),
+                _ => lines.insert(k, format!("{wide}")),
+            }
+            // a syntax error one or two lines away
+            let e = (k + 1 + rng.below(2)).min(lines.len() - 1);
+            if rng.coin() {
+                lines[e].push_str(" )");
+            }
+            let text = lines.join("\n");
+            if src == BASE_OP { op = text } else { schema = text }
+        }
         15 => {
             // one response key, two fields that cannot be merged (nitrogql does not implement FieldsInSetCanMerge, so
             // check accepts these and every printer then sees them)
